@@ -165,18 +165,11 @@ func (s *stepper) Begin(b replay.Behaviour, rng *rand.Rand) error {
 		r = []int{c.slack - 1, 0, c.slack / 2}[rng.Intn(3)]
 	}
 	size := vgirpc.ShmHeaderSize + s.cap*s.scale + r
-	seg, err := vgirpc.ShmCreate(size)
+	seg, peer, err := segmentOfSize(size)
 	if err != nil {
 		return err
 	}
-	s.seg = seg
-	peer, err := vgirpc.ShmAttach(seg.Name(), size, false)
-	if err != nil {
-		seg.Close()
-		s.seg = nil
-		return err
-	}
-	s.peer = peer
+	s.seg, s.peer = seg, peer
 	s.shm = newSession(seg, peer)
 	s.shm.hold = s.hold
 	s.plain = newSession(nil, nil)
@@ -190,11 +183,44 @@ func (s *stepper) End() {
 	if s.plain != nil {
 		s.plain.close()
 	}
-	if s.peer != nil {
-		s.peer.Close()
+}
+
+// Segments are reused between behaviours of the same size (munmap dominates a
+// behaviour's cost otherwise): the creating attachment and the second attachment
+// stay mapped, the table is reset and checked empty through the second attachment.
+type segPair struct{ seg, peer *vgirpc.ShmSegment }
+
+var segPool = map[int]segPair{}
+
+func segmentOfSize(size int) (*vgirpc.ShmSegment, *vgirpc.ShmSegment, error) {
+	if p, ok := segPool[size]; ok {
+		p.seg.Reset()
+		if err := p.peer.VerifValidateHeader(); err != nil {
+			return nil, nil, fmt.Errorf("pooled segment header damaged: %w", err)
+		}
+		if n := len(p.peer.VerifReadAllocs()); n != 0 {
+			return nil, nil, fmt.Errorf("pooled segment not empty after Reset: %d entries", n)
+		}
+		return p.seg, p.peer, nil
 	}
-	if s.seg != nil {
-		s.seg.Close()
+	seg, err := vgirpc.ShmCreate(size)
+	if err != nil {
+		return nil, nil, err
+	}
+	peer, err := vgirpc.ShmAttach(seg.Name(), size, false)
+	if err != nil {
+		seg.Close()
+		return nil, nil, err
+	}
+	segPool[size] = segPair{seg, peer}
+	return seg, peer, nil
+}
+
+func closePool() {
+	for k, p := range segPool {
+		p.peer.Close()
+		p.seg.Close()
+		delete(segPool, k)
 	}
 }
 
@@ -502,5 +528,6 @@ func (s *stepper) Step(i int, st replay.Step) (replay.Obs, error) {
 }
 
 func TestReplay(t *testing.T) {
+	defer closePool()
 	replay.Run(t, "ShmSession", func() replay.Stepper { return &stepper{} })
 }
